@@ -36,7 +36,10 @@ Member(o, S) == \E m \in S : m.stride = o.stride /\ m.to = o.to /\ m.consumed = 
 Returned(c) == c.out.outcome = "returned"
 
 C04Labels(c) ==
-  IF Returned(c) /\ Judgeable(c) /\ ~Member(Obs(c.out), Outcomes(c)) THEN {"not-the-documented-step"} ELSE {}
+  (IF Returned(c) /\ Judgeable(c) /\ ~Member(Obs(c.out), Outcomes(c)) THEN {"not-the-documented-step"} ELSE {})
+  \* a step that does not come back is not the documented step either, whatever the state it was given (also one without
+  \* bindings, which is otherwise judged for totality only)
+  \cup (IF c.out.outcome \in {"panicked", "hung"} THEN {"step-did-not-return"} ELSE {})
 
 ModelFails(c) == \A m \in Outcomes(c) : m.cls # "" \/ (m.to # NONE /\ "error" \in DOMAIN StBs(m.to))
 C07Labels(c) ==
